@@ -1,10 +1,11 @@
 import Driver.Common
 import RxModel.Disp
+import RxModel.DispNest
 /-!
 # drv_disp — line-protocol driver for the disposable models (C25–C27)
 
 Request: `{"op":"run","cls":C,"threads":[...],"sched":[tid,...] | null, "items":k, ...}`
-* `cls`: disposable | boolean | scheduled | composite | serial | mad | sad | sad_asis | refcount
+* `cls`: disposable | boolean | scheduled | composite | serial | mad | sad | sad_asis | refcount | nest
 * `threads`: per thread its program — a call count (disposable, boolean, scheduled callers) or a list of ops
 * `sched`: thread index per atomic step; `null` = run the threads one after the other to completion
 * `items`: number of item ids whose dispose counters are reported; `init`, `falsy`, `workers`, `raises` (disposable:
@@ -136,6 +137,12 @@ def mRefCount : Machine RSh RTh :=
                                 ("cnt", .arr #[natJ s.und]), ("deps", .arr (s.deps.map depJ).toArray)],
     done := fun _ t => t.pc == .idle && t.prog.isEmpty }
 
+def mNest (k : Nat) : Machine NSh NTh :=
+  { step := nStep, log := (·.log),
+    obs := fun s => Json.mkObj [("is_disposed", .bool s.cDisposed), ("has_serial", .bool s.cHasS),
+                                ("serial_disposed", .bool s.sDisposed), ("current", optJ s.sCurrent), ("cnt", cntJ s.cnt k)],
+    done := fun _ p => p.1 == .idle && p.2.isEmpty }
+
 /-! request parsing -/
 
 def natOf (j : Json) : Except String Nat :=
@@ -167,6 +174,14 @@ def rOpOf (j : Json) : Except String ROp := do
   | .arr #[.str "relm", h] => pure (.relMine (← natOf h))
   | .arr #[.str "dispose"] => pure .dispose
   | _ => throw s!"bad refcount op {j.compress}"
+
+def nOpOf (j : Json) : Except String NOp := do
+  match j with
+  | .arr #[.str "dispC"] => pure .dispC
+  | .arr #[.str "removeS"] => pure .removeS
+  | .arr #[.str "dispS"] => pure .dispS
+  | .arr #[.str "setS", v] => pure (.setS (← natOf v))
+  | _ => throw s!"bad nest op {j.compress}"
 
 def progsOf {α} (f : Json → Except String α) (j : Json) : Except String (List (List α)) := do
   (← getArr j "threads").mapM fun t =>
@@ -204,6 +219,7 @@ def handle (op : String) (j : Json) : Except String Json := do
       let fl ← natsOf j "falsy"
       pure (go (mAssign (sadAsIsStep fun i => fl.contains i) k) (aInit (← progsOf aOpOf j)) sched)
     | "refcount" => pure (go mRefCount (rInit (← progsOf rOpOf j)) sched)
+    | "nest" => pure (go (mNest k) (nInit (← progsOf nOpOf j)) sched)
     | _ => throw s!"unknown cls {cls}"
   | _ => throw s!"unknown op {op}"
 
